@@ -6,20 +6,16 @@ instances, like Go's heap), with the defaults of the package; batches handed out
 NEXT `wait` — in the heap as it is then — so an aliasing container model would show the overwritten tasks.
 
 cfg:  kind=seq
-ops:  new <k> bulk|chunk <max|def> <iv|def> | add <k> <x> | addn <k> <n> <code> <first id> | flush <k> | wait <k>
+ops:  new <k> bulk|chunk <-|t<n>,i<n>,…> (the option list, in order) | add <k> <x> | addn <k> <n> <code> <first id> | flush <k> | wait <k>
 obs:  max=<n> iv=<n> | c=<pending> sz=<bytes|-> | b=<batches> | skip
 -/
 import GoZero.Base.Trace
 import GoZero.C11.Driver
 import GoZero.C11.Containers
+import GoZero.C11.Api
 namespace GoZero.C11
 
 open GoZero
-
-/-- the package defaults (tied: tie_defaults) -/
-def defaultBulkTasks : Int := 1000
-def defaultChunkSize : Int := 1048576
-def defaultFlushInterval : Int := 1000000000
 
 structure SeqInst where
   live  : Bool := false
@@ -96,21 +92,39 @@ def seqLine (sec : Nat) (acc : Report × SeqSt) (l : Line) : Report × SeqSt := 
   let some k := (l.op.getD 1 "").toNat? | return bad
   let i := s.get k
   match l.op with
-  | ["new", _, kind, maxS, ivS] =>
+  | ["new", _, kind, optS] =>
     let chunk := kind = "chunk"
-    let max : Int := if maxS = "def" then (if chunk then defaultChunkSize else defaultBulkTasks) else maxS.toInt?.getD 0
-    let iv : Int := if ivS = "def" then defaultFlushInterval else ivS.toInt?.getD 0
-    r := r.addCover s!"seq-new-{kind}-max-{if maxS = "def" then "default" else if max ≤ 0 then "<=0" else if max = 1 then "1" else ">1"}"
-    r := r.addCover s!"seq-new-interval-{if ivS = "def" then "default" else if iv ≤ 0 then "<=0" else ">0"}"
+    -- the option list the harness passed, in order: t<n> = WithBulkTasks / WithChunkBytes, i<n> = With…Interval
+    let toks : List (Bool × Int) := if optS = "-" then [] else (optS.splitOn ",").filterMap fun t =>
+      match (String.ofList (t.toList.drop 1)).toInt? with
+      | some v => if t.startsWith "t" then some (true, v) else if t.startsWith "i" then some (false, v) else none
+      | none => none
+    if optS ≠ "-" ∧ toks.length ≠ (optS.splitOn ",").length then return bad
+    -- the constructor of Api.lean, applied to that list
+    let ex : Executor :=
+      if chunk then newChunkExecutor (toks.map fun p => if p.1 then ChunkOpt.bytes p.2 else ChunkOpt.interval p.2)
+      else newBulkExecutor (toks.map fun p => if p.1 then BulkOpt.tasks p.2 else BulkOpt.interval p.2)
+    let max : Int := ex.threshold
+    let iv : Int := ex.interval
+    let nT := (toks.filter (·.1)).length
+    let nI := (toks.filter (!·.1)).length
+    let maxS := if nT = 0 then "def" else toString max
+    let ivS := if nI = 0 then "def" else toString iv
+    r := r.addCover s!"seq-new-{kind}-max-{if nT = 0 then "default" else if max ≤ 0 then "<=0" else if max = 1 then "1" else ">1"}"
+    r := r.addCover s!"seq-new-interval-{if nI = 0 then "default" else if iv ≤ 0 then "<=0" else ">0"}"
+    if toks.isEmpty then r := r.addCover "seq-new-without-options"
+    if nT ≥ 2 then r := r.addCover "seq-new-threshold-option-repeated"
+    if nI ≥ 2 then r := r.addCover "seq-new-interval-option-repeated"
+    if (toks.head?.map (·.1)) = some false ∧ nT ≥ 1 then r := r.addCover "seq-new-interval-option-before-threshold-option"
     if s.insts.any (fun p => p.1 != k ∧ p.2.live) then r := r.addCover "seq-second-executor-in-section"
     if i.live then r := r.addCover "seq-executor-replaced-in-slot"
     -- the property's quantifier is "for all thresholds and intervals": the ones the caller gave must be the ones in force
     let gotMax := kvInt l.obs "max" (-999)
     let gotIv := kvInt l.obs "iv" (-999)
     if gotMax ≠ max then
-      r := r.violation sec l.idx s!"{kind} executor built with threshold {maxS}: its container flushes at {gotMax}, not at {max} — tasks are not executed when the size threshold the caller configured is reached"
+      r := r.violation sec l.idx s!"{kind} executor built with options {optS} (threshold {maxS}): its container flushes at {gotMax}, not at {max} — tasks are not executed when the size threshold the caller configured is reached"
     if gotIv ≠ iv then
-      r := r.violation sec l.idx s!"{kind} executor built with flush interval {ivS}: the PeriodicalExecutor ticks every {gotIv}ns, not every {iv}ns — the periodic flush does not happen at the configured interval"
+      r := r.violation sec l.idx s!"{kind} executor built with options {optS} (flush interval {ivS}): the PeriodicalExecutor ticks every {gotIv}ns, not every {iv}ns — the periodic flush does not happen at the configured interval"
     let inew : SeqInst := { live := true, chunk := chunk, b := { maxTasks := max }, c := { maxChunkSize := max }, max := gotMax }
     return (r, s.set k inew)
   | _ =>
